@@ -239,7 +239,7 @@ type asmVariant struct {
 func asmVariants() []asmVariant {
 	var v []asmVariant
 	for _, l := range []bool{true, false} {
-		v = append(v, asmVariant{l, false, 0}, asmVariant{l, true, 0}, asmVariant{l, true, 0x008000}, asmVariant{l, true, 0x7E2000}, asmVariant{l, true, 0xFFFE00})
+		v = append(v, asmVariant{l, false, 0}, asmVariant{l, true, 0}, asmVariant{l, true, 0x008000}, asmVariant{l, true, 0x7E2000}, asmVariant{l, true, 0xFF8000})
 	}
 	return v
 }
